@@ -276,6 +276,29 @@ impl<'tcx> Cx<'tcx> {
                         let u = si.to_uint(size);
                         if u <= i128::MAX as u128 { J::Num(u as i128) } else { s(format!("{}", u)) }
                     }
+                } else if let rustc_middle::mir::interpret::Scalar::Ptr(ptr, _) = sc {
+                    // &[u8; N] byte-string constants (format_args templates, b"..")
+                    let mut out = J::Null;
+                    if let ty::Ref(_, inner, _) = ty.kind() {
+                        if let ty::Array(elem, len) = inner.kind() {
+                            if *elem == tcx.types.u8 {
+                                if let Some(n) = len.try_to_target_usize(tcx) {
+                                    let (prov, off) = ptr.into_raw_parts();
+                                    if let Some(rustc_middle::mir::interpret::GlobalAlloc::Memory(a)) =
+                                        tcx.try_get_global_alloc(prov.alloc_id())
+                                    {
+                                        let lo = off.bytes() as usize;
+                                        let hi = lo + n as usize;
+                                        if hi <= a.inner().len() {
+                                            let b = a.inner().inspect_with_uninit_and_ptr_outside_interpreter(lo..hi);
+                                            out = J::Obj(vec![("bytes", J::Arr(b.iter().map(|x| J::Num(*x as i128)).collect()))]);
+                                        }
+                                    }
+                                }
+                            }
+                        }
+                    }
+                    out
                 } else {
                     J::Null
                 }
